@@ -156,7 +156,39 @@ def build_column(col):
 
 
 def build_frame(spec) -> pandas.DataFrame:
-    return pandas.DataFrame({c["name"]: build_column(c) for c in spec["cols"]})
+    df = pandas.DataFrame({c["name"]: build_column(c) for c in spec["cols"]})
+    if spec.get("index") is not None:
+        df.index = pandas.Index(spec["index"])
+    return df
+
+
+INDEX_KINDS = ("default", "shuffled", "subset", "strings")
+
+
+def with_index(spec, kind: str, rng: random.Random) -> dict:
+    """Copy of `spec` whose frame carries row labels of the given kind:
+    default  = RangeIndex 0..n-1;  shuffled = a permutation of 0..n-1 (not the identity when n >= 2);
+    subset   = n distinct labels out of a larger range, in no particular order (a filtered + shuffled frame);
+    strings  = string labels in non-sorted order."""
+    n = spec["n"]
+    out = dict(spec)
+    out["index_kind"] = kind
+    if kind == "default":
+        out["index"] = None
+    elif kind == "shuffled":
+        labels = list(range(n))
+        while n >= 2 and labels == list(range(n)):
+            rng.shuffle(labels)
+        out["index"] = labels
+    elif kind == "subset":
+        out["index"] = rng.sample(range(3 * n + 4), n)
+    elif kind == "strings":
+        labels = [f"r{i}" for i in range(n)]
+        rng.shuffle(labels)
+        out["index"] = labels
+    else:
+        raise ValueError(kind)
+    return out
 
 
 def frame_code(spec, var: str = "df") -> str:
@@ -179,11 +211,13 @@ def frame_code(spec, var: str = "df") -> str:
             e = f"numpy.array({vals}, dtype='float64')"
         lines.append(f"    {c['name']!r}: {e},")
     lines.append("})")
+    if spec.get("index") is not None:
+        lines.append(f"{var}.index = pandas.Index({spec['index']!r})")
     return "\n".join(lines)
 
 
 def spec_summary(spec) -> str:
-    parts = [f"n={spec['n']}"]
+    parts = [f"n={spec['n']}"] + ([f"index={spec['index_kind']}"] if spec.get("index_kind", "default") != "default" else [])
     for c in spec["cols"]:
         if c["kind"] == "cat":
             parts.append(f"{c['name']}:{c['flavor']}{len(c['levels'])}")
